@@ -551,3 +551,21 @@ func focusedLimitTailFilterShapes() []string {
 	}
 	return out
 }
+
+// focusedQuotedNameShapes: back-ticked aliases and variables whose names hold a double quote, a backslash, a back-tick or a blank, in the
+// positions where the statement must name them again (ORDER BY an alias, a name carried through WITH, a variable read after its MATCH).
+func focusedQuotedNameShapes() []string {
+	var out []string
+	for _, n := range []string{"`say \"hi\"`", "`a\\b`", "`x y`", "`q\"`", "`it``s`", "`\"`"} {
+		out = append(out,
+			"match (n) return n.name as "+n+" order by "+n,
+			"match (n) return id(n) as "+n+" order by "+n+" desc limit 2",
+			"match (n) with n.name as "+n+" return "+n,
+			"match (n) with n as "+n+" return "+n,
+			"match ("+n+") return "+n,
+			"match ("+n+")-[r]->(b) where "+n+".name = 'x' return "+n+", b",
+			"match (n) with n.name as "+n+", count(n) as c return "+n+", c order by "+n,
+		)
+	}
+	return out
+}
